@@ -217,6 +217,10 @@ def r2_array(program, folder, rep):
             m2 = None
             for pat in (
                     ("call", ("attr", NP, "clip"), (V("v"), LO, HI), ()),
+                    ("call", ("attr", NP, "clip"), (V("v"),),
+                     (("a_max", HI), ("a_min", LO))),
+                    ("call", ("attr", NP, "clip"), (V("v"), LO),
+                     (("a_max", HI),)),
                     ("call", ("attr", NP, "minimum"),
                      (("call", ("attr", NP, "maximum"), (V("v"), LO), ()),
                       HI), ()),
